@@ -269,6 +269,7 @@ func mutateTables(r *Rng, t mp4synth.Tables) mp4synth.Tables {
 	switch r.Intn(12) {
 	case 0:
 		cp.Timescale = 0
+		cp.ZeroMovie = r.Bool()
 	case 1:
 		cp.NSamples = Pick(r, weird)
 	case 2:
